@@ -340,8 +340,8 @@ class Layout:
             line = self.b[st:en]
             k = 0
             w = 0
-            while k < len(line) and line[k] in (32, 9):
-                w += 1 if line[k] == 32 else 4
+            while k < len(line) and line[k] in (32, 9, 13):
+                w += 1 if line[k] == 32 else 4 if line[k] == 9 else 0
                 k += 1
             nw = f(w)
             lead = (b"\t" * (nw // 4) + b" " * (nw % 4)) if tabs else b" " * nw
@@ -353,8 +353,8 @@ class Layout:
         for n, st in enumerate(self.line_starts):
             k = st
             w = 0
-            while k < len(self.b) and self.b[k] in (32, 9):
-                w += 1 if self.b[k] == 32 else 4
+            while k < len(self.b) and self.b[k] in (32, 9, 13):
+                w += 1 if self.b[k] == 32 else 4 if self.b[k] == 9 else 0
                 k += 1
             ws.add(w)
         return ws
@@ -441,9 +441,11 @@ def run(chk):
 
     # ---- 1. correspondence: models vs real lexer
     gen = Gen(rng)
-    programs = [gen.program() for _ in range(120 if quick else 1500)]
-    small = small_strings(4 if quick else 5)
-    lexs = lexical_samples(rng, 300 if quick else 3000)
+    programs = [gen.program() for _ in range(100 if quick else 1500)]
+    small = small_strings(3 if quick else 5)
+    if quick:
+        small += ["".join(rng.choice("a \t\n\r#():") for _ in range(rng.randint(4, 9))) for _ in range(1500)]
+    lexs = lexical_samples(rng, 200 if quick else 3000)
     files = corpus_files()
     corpus = []
     for f in files:
@@ -451,8 +453,10 @@ def run(chk):
             corpus.append((os.path.relpath(f, vlib.REPO), open(f, encoding="utf-8").read()))
         except (OSError, UnicodeDecodeError):
             pass
-    corp_sel = corpus if not quick else [c for i, c in enumerate(corpus) if i % 3 == 0]
-    groups = [("small", small, 800), ("lexical", lexs, 200), ("program", programs, 30), ("corpus", [c[1] for c in corp_sel], 2)]
+    corp_sel = corpus if not quick else [c for i, c in enumerate(corpus) if i % 6 == 0]
+    groups = [("small", small, 300), ("lexical", lexs, 150), ("program", programs[:(60 if quick else 400)], 10), ("corpus", [c[1] for c in corp_sel], 2)]
+    import time as _t
+    t0 = _t.time()
     model_ok = vlib.coq_build(["Lex/Chars.vo", "Lex/Layout.vo"])[0]
     if not model_ok:
         res["tie_ok"] = False
@@ -472,6 +476,8 @@ def run(chk):
             why = compare_model(s, r, m)
             if why:
                 corr_bad.append({"group": name, "source": s[:400], "why": why})
+    vlib.log("[c10] correspondence %d cases in %.1fs" % (n_corr, _t.time() - t0))
+    t0 = _t.time()
     chk.coverage["traces_validated_against_impl"] = n_corr
     chk.coverage["correspondence_mismatches"] = len(corr_bad)
 
@@ -486,6 +492,8 @@ def run(chk):
     except (IndexError, ValueError):
         pass
 
+    vlib.log("[c10] exhaustive lexer oracle in %.1fs" % (_t.time() - t0))
+    t0 = _t.time()
     # ---- 3. oracle on the real parser: every edit, every position, span-erased ASTs
     subjects = [("gen%d" % i, p) for i, p in enumerate(programs)] + corpus
     base_ast = real_ast(binary, [s for _, s in subjects])
@@ -504,7 +512,7 @@ def run(chk):
             n_valid += 1
         lay = Layout(s, l[0])
         is_corpus = not name.startswith("gen")
-        limit = None if (not is_corpus or not quick) else 60
+        limit = None if (not is_corpus or not quick) else 40
         for (ename, pos, text) in variants(lay, rng, limit):
             cases.append((name, s, a, ename, pos, text))
     got = real_ast(binary, [c[5] for c in cases])
@@ -515,14 +523,15 @@ def run(chk):
         if not ok:
             fails.append({"oracle": "span-erased AST changed under a layout edit", "subject": name, "edit": ename, "position": pos,
                           "original": s, "edited": text, "expected": a, "actual": g})
+    vlib.log("[c10] AST oracle %d variants in %.1fs" % (len(cases), _t.time() - t0))
     chk.coverage["oracle_subjects"] = len(subjects)
     chk.coverage["oracle_valid_subjects"] = n_valid
     chk.coverage["oracle_variants"] = len(cases)
     chk.coverage["distribution"] = dist
-    chk.coverage["rule"] = ("correspondence: all strings of length <= %d over 9 layout characters, scanner-stress samples, generated "
-                            "programs, corpus files (every file in thorough, every third in quick); oracle: every edit at every position of "
+    chk.coverage["rule"] = ("correspondence: all strings of length <= %d over 9 layout characters (+1500 random longer ones in quick), scanner-stress samples, generated "
+                            "programs, corpus files (every file in thorough, every sixth in quick); oracle: every edit at every position of "
                             "generated programs, %s positions of the %d corpus files; non-trivial = accepted by the real lexer/parser"
-                            % (4 if quick else 5, "60 sampled" if quick else "all", len(corpus)))
+                            % (3 if quick else 5, "40 sampled" if quick else "all", len(corpus)))
     for p in programs[:3]:
         chk.sample(p)
     for c in cases[:3]:
